@@ -1,0 +1,15 @@
+//go:build verif
+
+// ASSUMED contract for package governance needed by C15/C02 (action/eth). Comment-only file, read by /verif/govc.
+
+package governance
+
+// ethOpt(st): the Ethereum chain-driver option record in force (contract ABI/address, token list, total supply,
+// address of the wrapped-supply counter). Assumed: the typed getter returns a fresh decoded copy of that record and
+// touches nothing else (rests on C09 State.Get and T-SER; the versioned key lookup (GetLUH) is not verified here —
+// note that (*Store).Get panics if the last-update-height record cannot be read).
+//@ model ethOpt(*Store) ethereum.ChainDriverOption
+//@ assume func (*Store).GetETHChainDriverOption
+//@   modifies nothing
+//@   ensures err == nil ==> result0 != nil && fresh(result0) && *result0 == ethOpt(st)
+//@   ensures err != nil ==> result0 == nil
